@@ -413,7 +413,7 @@ class SetupSlotHarness(Harness):
     def const_stimulus(self, rng):
         d = {}
         for i in range(self.host.n):
-            k = rng.choice([KIND_SETUP, KIND_SETUP, KIND_IN, KIND_OUT, KIND_NONE, KIND_SOF, KIND_PING])
+            k = rng.choice([KIND_SETUP, KIND_SETUP, KIND_IN, KIND_OUT, KIND_NONE, KIND_SOF, KIND_PING, 7])
             d.update({f"s{i}_kind": k, f"s{i}_ep": 0 if k == KIND_SETUP else rng.randrange(4),
                       f"s{i}_addr": 0 if rng.random() < 0.8 else rng.randrange(128),
                       f"s{i}_data": rng.getrandbits(64), f"s{i}_flag": int(rng.random() < 0.3),
@@ -460,7 +460,7 @@ def queries(tier):
     LEN = {"0": dict(kind=KIND_OUT, flag=0, olen=0), "1": dict(kind=KIND_OUT, flag=0, olen=1),
            "2": dict(kind=KIND_OUT, flag=0, olen=2), "o": dict(kind=KIND_OUT, flag=1, olen=2, data=0xC3A5),
            "s": dict(kind=KIND_SETUP, flag=1, data=0x0000000000010900)}
-    for name, layer in slot_cubes(2, "SsIi012oNGFf", table=LEN):
+    for name, layer in slot_cubes(2, "SsTIi012oNGFf", table=LEN):
         if quick and name[1] not in "Ss":
             continue
         qs.append(Query(f"bmc_2slots_{name}", s2, 66, layer=layer, asserts=SLOT, covers=[], timeout=900, split=False,
@@ -476,7 +476,7 @@ def queries(tier):
     qs.append(Query("covers_2slots", s2, 66, asserts=[], hints=hints, timeout=900, split=False,
                     covers=["slot_received_last", "slot_received_after_corrupt", "slot_two_setups"], desc="witnesses"))
     if not quick:
-        for name, layer in slot_cubes(3, "Ss2oiN", table=LEN):
+        for name, layer in slot_cubes(3, "SsT2oiN", table=LEN):
             if name[2] in "Ss":
                 qs.append(Query(f"bmc_3slots_{name}", s3, 98, layer=layer, asserts=SLOT, covers=[], timeout=1800,
                                 split=False, tactic="ctx-first" if "s" in name or "o" in name else "portfolio",
